@@ -929,9 +929,10 @@ class Gen:
         return [t for t in m.sp if t not in bad and s not in m.lin(t) and not (set(m.tree(t)) & {s})]
 
     def w2(self, s, newbases):
-        """trigger of finding C02_wide_2: through the new bases [s] or a sub space of it comes to derive a reference whose
+        """C02_wide_2 is repaired in /repo: always False (the former trigger is generated).  Former predicate: through the new bases [s] or a sub space of it comes to derive a reference whose
         name is a model-level reference it saw so far (the derived one shadows it), and some formula reads that name by
         an attribute path"""
+        return False
         m = self.m
         read = set()
         for d in m.sp.values():
